@@ -32,6 +32,9 @@ func C12(c *Ctx, r *report.Run) error {
 		for _, pl := range places {
 			for _, among := range []bool{false, true} {
 				s := univ.MisuseSpec(*mu, pl, among)
+				if s == nil {
+					continue // the placement does not apply to the rule
+				}
 				jobs = append(jobs, job{s, "protoc-gen-go-http", mu, true})
 				if mu.JSONRule && !mu.Unwrap {
 					jobs = append(jobs, job{s, "protoc-gen-go-client", mu, true})
